@@ -379,7 +379,9 @@ def scn_flag_compose(d: Draw) -> Optional[dict]:
     prod_l = sorted(prod - unpacked)
     if not prod_l:
         return None
-    others = [n for n in stmts + sorted(n for n in g["nodes"] if n[0] == "p") if n not in prod and n not in unpacked]
+    # (operator statements are not offered as inputs either: the supplied value would need the operator's result type)
+    others = [n for n in stmts + sorted(n for n in g["nodes"] if n[0] == "p") if n not in prod and n not in unpacked
+              and (n[0] == "p" or dg["stmts"][n[1]]["k"] == "call")]
     in_nodes = d.sample(prod_l, d.int(1, min(2, len(prod_l)))) + d.sample(others, d.int(0, min(2, len(others))))
     in_nodes = d.sample(in_nodes, len(in_nodes))   # random order: the flag producer is not always last
     cand_out = [n for n in stmts if n not in in_nodes]
